@@ -1,8 +1,8 @@
 package main
 
 import (
-	pongo2 "github.com/flosch/pongo2/v6"
 	"fmt"
+	pongo2 "github.com/flosch/pongo2/v6"
 	"sort"
 	"strings"
 )
